@@ -90,6 +90,8 @@ def setup(dim, nparams, dense, symbolic_eps=True, steps=2, kind='uf'):
     d = t.dag
     uf_partial_witness(d)
     sizes = [dim] if nparams == 1 else [1] * dim
+    if nparams == 3:
+        sizes = [1, 1, dim - 2]
     qs = []
     params = []
     k = 0
@@ -100,7 +102,7 @@ def setup(dim, nparams, dense, symbolic_eps=True, steps=2, kind='uf'):
         qs.append(st)
     p0 = new_vars('p', torch.tensor([0.7 - 0.5 * j for j in range(dim)], dtype=torch.float64))
     if dense:
-        raw = torch.tensor([[1.3, 0.2], [0.2, 0.8]], dtype=torch.float64)[:dim, :dim]
+        raw = torch.tensor([[1.3, 0.2, 0.1], [0.2, 0.8, 0.05], [0.1, 0.05, 1.1]], dtype=torch.float64)[:dim, :dim]
         im = new_vars('Minv', raw)
         # symmetric: use the same symbol for [i,j] and [j,i]
         ids = im._ids.clone()
@@ -109,7 +111,7 @@ def setup(dim, nparams, dense, symbolic_eps=True, steps=2, kind='uf'):
                 ids[i, j] = ids[j, i]
         im = from_ids(ids)
     else:
-        im = new_vars('Minv', torch.tensor([1.3, 0.8][:dim], dtype=torch.float64))
+        im = new_vars('Minv', torch.tensor([1.3, 0.8, 1.1][:dim], dtype=torch.float64))
     eps = mkfloat(d.var('eps', 0.11)) if symbolic_eps else 0.11
     integ = LeapfrogIntegrator('leapfrog', steps, eps)
     model = make_target(params, kind)
@@ -331,6 +333,8 @@ def real_setup(dim, nparams, dense, steps, vals):
     from torchtree.inference.hmc.integrator import LeapfrogIntegrator
 
     sizes = [dim] if nparams == 1 else [1] * dim
+    if nparams == 3:
+        sizes = [1, 1, dim - 2]
     params = []
     k = 0
     for i, sz in enumerate(sizes):
@@ -436,13 +440,36 @@ def replay_hastings(dim, nparams, dense, steps, fail, vals):
     params, p0, im, integ, model = real_setup(dim, nparams, dense, steps, vals)
     mass = Parameter('mass', torch.linalg.inv(im) if dense else 1.0 / im)
     op = HMCOperator('hmc', model, params, integ, mass, 1.0, 0.8, [])
-    mom = torch.tensor([vals.get(f'mom0[{j}]', 0.7 - 0.5 * j) for j in range(dim)], dtype=torch.float64)
-    op._hamiltonian.sample_momentum = lambda mm: mom.clone()
+    moms = [torch.tensor([vals.get(f'mom{k}[{j}]', 0.7 - 0.5 * j + 0.1 * k) for j in range(dim)], dtype=torch.float64)
+            for k in range(2)]
+    drawn = []
+
+    def sample(mm):
+        drawn.append(len(drawn))
+        return moms[min(len(drawn) - 1, 1)].clone()
+
+    op._hamiltonian.sample_momentum = sample
+    if fail:
+        # a NaN potential in the middle of the first trajectory (same call index as in the symbolic run)
+        calls = {'n': 0}
+        orig_call = type(model)._call
+
+        def flaky(self_, *a, **k):
+            calls['n'] += 1
+            if calls['n'] == 3:
+                return torch.tensor(float('nan'), dtype=torch.float64)
+            return orig_call(self_, *a, **k)
+
+        type(model)._call = flaky
     before = [p.tensor.clone() for p in params]
     try:
         ret = float(op.step())
     except Exception as e:
         return True, f'step raised {type(e).__name__}: {e}'
+    finally:
+        if fail:
+            type(model)._call = orig_call
+    used = moms[min(len(drawn) - 1, 1)]
     after = [p.tensor.clone() for p in params]
     imu = op.inverse_mass_matrix
 
@@ -451,10 +478,11 @@ def replay_hastings(dim, nparams, dense, steps, fail, vals):
 
     for p_, b in zip(params, before):
         p_.tensor = b.clone()
-    pend = integ(model, params, mom.clone(), imu)
-    want = K(mom) - K(pend)
+    pend = integ(model, params, used.clone(), imu)
+    want = K(used) - K(pend)
     if abs(ret - want) > 1e-9 * max(1.0, abs(want)):
-        return True, f'HMCOperator.step() returned {ret} but K(p_start) - K(p_end) = {want}'
+        return True, (f'HMCOperator.step() returned {ret} but K(p_start) - K(p_end) = {want} for the momentum of the successful '
+                      f'trajectory ({len(drawn)} momentum draw(s))')
     again = [p.tensor for p in params]
     if any(not torch.allclose(a, b, rtol=1e-9, atol=1e-12) for a, b in zip(after, again)):
         return True, 'proposed position differs from the leapfrog end point'
@@ -476,6 +504,7 @@ def tasks_for(tier):
         for dim, nparams, dense, steps in [(1, 1, False, 1), (1, 1, False, 2), (2, 1, False, 2), (2, 2, False, 2),
                                            (2, 1, True, 2), (2, 2, True, 1)]:
             ts.append(('rev', dim, nparams, dense, steps))
+        ts.append(('rev', 3, 3, False, 1))  # three parameters per operator (offset bookkeeping of set_tensor)
         ts += [('vol', 1, 1, False, 1), ('vol', 1, 1, False, 2), ('vol', 2, 1, False, 1), ('vol', 2, 2, True, 1)]
         ts += [('energy', 1, 1, False, 1, 'uf'), ('energy', 2, 1, False, 2, 'gauss'), ('energy', 2, 2, True, 1, 'uf')]
         ts += [('hastings', 2, 1, False, 2, False), ('hastings', 2, 2, True, 1, False), ('hastings', 1, 1, False, 2, True)]
@@ -491,6 +520,8 @@ def tasks_for(tier):
                         ts.append(('energy', dim, nparams, dense, steps, 'gauss'))
                         ts.append(('hastings', dim, nparams, dense, steps, False))
                     ts.append(('hastings', dim, nparams, dense, 2, True))
+        ts.append(('rev', 3, 3, False, 2))
+        ts.append(('hastings', 3, 3, False, 1, False))
     return ts
 
 
